@@ -1593,3 +1593,8 @@ fn replay(_opts: &Opts, d: &Value, acc: &mut Acc) {
     }
     acc.inconclusive.push("C19 replay file has neither source nor genome_hex".to_string());
 }
+
+/// libFuzzer entry: one generated program through both formats
+pub fn fuzz_case(genome: &[u8], acc: &mut Acc) -> Vec<Failure> {
+    check_generated(genome, acc)
+}
